@@ -13,6 +13,7 @@
 # limitations under the License.
 
 from copy import copy
+from numbers import Integral
 
 import numpy as np
 
@@ -124,7 +125,7 @@ class CompiledCircuit:
         Check a mode exists within the created circuit and also confirm it
         is an integer.
         """
-        if not isinstance(mode, int) or isinstance(mode, bool):
+        if not isinstance(mode, Integral) or isinstance(mode, bool):
             raise TypeError("Mode number should be an integer.")
         if not 0 <= mode < self.n_modes:
             raise ModeRangeError(
